@@ -74,10 +74,22 @@ impl TBS {
             }
         }
 
-        // put records in canonical order
-        rrset.sort();
-
         let name = determine_name(name, input.num_labels)?;
+
+        // RFC 4034 section 6.3: the RRs are ordered by their *canonical* RDATA (names expanded,
+        // lower-cased where section 6.2 says so) treated as left-justified octet strings, and
+        // duplicate RRs are removed. The record's own TTL plays no role (the Original TTL is used).
+        let mut rdatas = Vec::with_capacity(rrset.len());
+        for record in rrset {
+            let mut rdata = Vec::new();
+            let mut rdata_encoder = BinEncoder::new(&mut rdata);
+            rdata_encoder.canonical_form = true;
+            rdata_encoder.name_encoding = NameEncoding::Uncompressed;
+            record.data.emit(&mut rdata_encoder)?;
+            rdatas.push(rdata);
+        }
+        rdatas.sort();
+        rdatas.dedup();
 
         // TODO: rather than buffering here, use the Signer/Verifier? might mean fewer allocations...
         let mut buf = Vec::new();
@@ -99,7 +111,7 @@ impl TBS {
         input.emit(&mut encoder)?;
 
         // construct the rrset signing data
-        for record in rrset {
+        for rdata in rdatas {
             //             RR(i) = name | type | class | OrigTTL | RDATA length | RDATA
             //
             //                name is calculated according to the function in the RFC 4035
@@ -119,14 +131,12 @@ impl TBS {
             input.original_ttl.emit(&mut encoder)?;
             //
             //                RDATA length
-            let rdata_length_place = encoder.place::<u16>()?;
-            //
-            //                All names in the RDATA field are in canonical form (set above)
-            record.data.emit(&mut encoder)?;
-
-            let length = u16::try_from(encoder.len_since_place(&rdata_length_place))
+            let length = u16::try_from(rdata.len())
                 .map_err(|_| ProtoError::from("RDATA length exceeds u16::MAX"))?;
-            rdata_length_place.replace(&mut encoder, length)?;
+            length.emit(&mut encoder)?;
+            //
+            //                All names in the RDATA field are in canonical form (see above)
+            encoder.emit_slice(&rdata)?;
         }
 
         Ok(Self(buf))
